@@ -49,11 +49,16 @@ def scenarios():
     # R1 input read
     for cmp in CMPS:
         for hi, host in enumerate((lambda q: [sbn([q])], lambda q: [bfn('a', [q])], lambda q: [sbn([sbn([q], 2)])],
-                                   lambda q: [bfn('a', [sbn([q])])], lambda q: [sbn([bfn('d/x', [q])])])):
+                                   lambda q: [bfn('a', [sbn([q])])], lambda q: [sbn([bfn('d/x', [q])])],
+                                   # the read happens after a caught failure of a nested build_file / subbuild
+                                   lambda q: [sbn([dict(bfn('d/y', []), mode='rb', catch=True), q])],
+                                   lambda q: [bfn('a', [dict(sbn([], 3), mode='rb', catch=True), q])])):
             for m in MUTS:
                 prog = {'level': 0, 'root': host(rd('i', cmp))}
                 everything = [fname(n, 0) for n in _calls(prog['root'])]
                 want = everything if detects(cmp, m) else []
+                if hi == 6 and not want:
+                    pass
                 stale = cmp == 'METADATA' and m == 'flip'
                 out.append(dict(role='input_read', nested=hi >= 2, cmp=cmp, m=m, prog=prog, mutate=mut(m, 'i'),
                                 want=want, stale_ok=stale))
